@@ -1,5 +1,6 @@
 import Sqljson.Driver.ExecOps
 import Sqljson.Driver.TimeOps
+import Sqljson.Driver.ParseOps
 /-!
 Driver: one JSON case per input line, one JSON result per output line (`{"id":…,…}`).
 -/
@@ -12,7 +13,10 @@ def handle (j : Json) : Json :=
     if op == "exec" then ExecOps.handleExec j
     else match handleTime op j with
       | some r => r
-      | none => Json.mkObj [("out", "skip"), ("why", Json.str ("unknown op " ++ op))]
+      | none =>
+        match ParseOps.handleParse op j with
+        | some r => r
+        | none => Json.mkObj [("out", "skip"), ("why", Json.str ("unknown op " ++ op))]
   let id := (j.getObjVal? "id").toOption.getD Json.null
   body.setObjVal! "id" id
 
